@@ -618,7 +618,7 @@ func (s *SlashingK) JailUntil(ctx context.Context, addr sdk.ConsAddress, t time.
 	}
 	r.JailedUntil = t.UnixNano()
 	s.stk().setRec(ctx, r)
-	s.e.logEffect(ctx, fmt.Sprintf("jailuntil v=%d t=%d", id, t.UnixNano()))
+	s.e.logEffect(ctx, fmt.Sprintf("jailuntil v=%d t=%d", id, t.UnixNano()-t0.UnixNano()))
 	return nil
 }
 
